@@ -11,7 +11,7 @@ VARIABLES l, bad
 
 \* ---- C15: one build session.  e.conf, e.ts = [secs, us]; e.res = [v, m, blen, bytes, m2, bytes2, parse]
 BuildOk(e) ==
-  LET conf == e.conf  r == e.res  want == NewMessage(conf, None) IN
+  LET conf == e.conf  r == e.res  want0 == NewMessage(conf, None)  want == NewMessage(conf, e.sh0) IN      \* e.sh0: storage header given to Message::new
   ConfFits(conf) =>
     /\ r.v = "ok"
     /\ r.m = want                                                        \* fields, payload length, VERB / NOAR as the payload kind requires
@@ -20,7 +20,7 @@ BuildOk(e) ==
     /\ r.m2 = AddStorageHeader(r.m, e.ts.secs, e.ts.us)
     /\ Len(r.bytes2) = 16 + Len(r.bytes) /\ SubSeq(r.bytes2, 17, Len(r.bytes2)) = r.bytes
     /\ SubSeq(r.bytes2, 1, 16) = EncStorage(r.m2.sh[1])                  \* 16 bytes carrying the given time and the ECU id
-    /\ WellFormed(want) => (r.parse.v = "msg" /\ r.parse.m = r.m2 /\ r.parse.consumed = Len(r.bytes2))    \* parses back to an equal message
+    /\ WellFormed(want0) => (r.parse.v = "msg" /\ r.parse.m = r.m2 /\ r.parse.consumed = Len(r.bytes2))    \* parses back to an equal message
 \* ---- C15: one argument.  e.a; e.res = [v, len, be, le, valid]
 ArgOk(e) ==
   LET a == e.a  r == e.res IN
